@@ -305,10 +305,10 @@ def _big(draw):
 def subs(tier: str):
     q = tier == "quick"
     return [
-        Sub("hand-mazes", check, "hypothesis", strategy=lambda: _hand(10), examples=80 if q else 5000),
-        Sub("generated-mazes", check, "hypothesis", strategy=lambda: _gen(10), examples=60 if q else 3000),
+        Sub("hand-mazes", check, "hypothesis", strategy=lambda: _hand(10), examples=150 if q else 5000),
+        Sub("generated-mazes", check, "hypothesis", strategy=lambda: _gen(10), examples=100 if q else 3000),
         Sub("same-flags-other-shape", check_twins, "hypothesis", strategy=_twins, examples=10 if q else 200),
         Sub("large-grids-int8", check, "hypothesis", strategy=_big, examples=3 if q else 40),
-        Sub("datasets-and-batches", check_dataset, "hypothesis", strategy=_dataset, examples=20 if q else 1500),
+        Sub("datasets-and-batches", check_dataset, "hypothesis", strategy=_dataset, examples=40 if q else 1500),
         Sub("config-routes", check_config_route, "hypothesis", strategy=_config_route, examples=10 if q else 500),
     ]
